@@ -448,6 +448,11 @@ BLOCKS = {
         body=b, **{'else': None}),
     'in-empty-else': lambda b: dict(k='in', ref=_name('s0'), opts=[],
                                     body=[_t('never')], **{'else': b}),
+    'in-mixed': lambda b: dict(k='in', ref=_name('smix'), opts=[], body=b,
+                               **{'else': None}),
+    'in-mixed-batch': lambda b: dict(k='in', ref=_name('smix'), opts=[
+        ['size', '4'], ['start', '2'], ['orphan', '0']], body=b,
+        **{'else': None}),
     'in-no-push': lambda b: dict(k='in', ref=_name('s2'),
                                  opts=[['no_push_item', None]], body=b,
                                  **{'else': None}),
